@@ -762,6 +762,7 @@ func c16Ops(w *world, docs map[int][]byte) []c16Op {
 		um := unmarshaler.NewJSON(dres, unmarshaler.WithCustomFields(custom...), unmarshaler.WithBuiltinFields(),
 			unmarshaler.WithStandardSentinelErrors())
 		umStrict := unmarshaler.NewJSON(res, unmarshaler.WithStrictMode(), unmarshaler.WithCustomFields(custom...))
+		umBare := unmarshaler.NewJSON(resolver.New().WithDefault(c16BareDefault))
 		for j := range nonNil {
 			doc, ok := docs[j]
 			if !ok {
@@ -793,6 +794,22 @@ func c16Ops(w *world, docs map[int][]byte) []c16Op {
 				}
 				return snapRestored(r)
 			})
+			// restored through a resolver whose only definition has no fields and an unmarshaler
+			// without custom keys: every field arrives unknown but convertible, so typed lookups
+			// (extractors, Fields().Get, OrZero ...) go through the lazy conversion path
+			if rb, err := umBare.Unmarshal(doc); err == nil {
+				add("restored", fmt.Sprintf("typed lookups on the shared bare-restored e%d", j), func() string {
+					var b strings.Builder
+					for _, ke := range keyPool[:nBaseKeys] {
+						v, ok := ke.Ext(rb)
+						fv, ok2 := rb.Fields().Get(ke.Key)
+						fmt.Fprintf(&b, "%d:%v,%v,%s,%s;", ke.ID, ok, ok2, reprOf(v), reprOf(ke.OrZero(rb)))
+						_ = fv
+					}
+					return b.String()
+				})
+				add("restored", fmt.Sprintf("accessors of the shared bare-restored e%d", j), func() string { return snapRestored(rb) })
+			}
 			if r, err := um.Unmarshal(doc); err == nil {
 				add("restored", fmt.Sprintf("accessors of the shared restored e%d", j), func() string { return snapRestored(r) })
 				add("restored", fmt.Sprintf("json.Marshal + re-Unmarshal of the shared restored e%d", j), func() string {
@@ -811,6 +828,8 @@ func c16Ops(w *world, docs map[int][]byte) []c16Op {
 	}
 	return ops
 }
+
+var c16BareDefault = errdef.Define("c16-bare", errdef.NoTrace())
 
 func c16ChildMain(args []string) int {
 	if len(args) < 1 {
